@@ -96,6 +96,32 @@ pub fn gen_c09(r: &mut Rng, out: &mut dyn Write) {
     }
 }
 
+/// C17: the unit-taking views where the viewed duration is a whole number of centuries plus a whole number of the unit
+/// asked for (an interaction between the unit argument and the value), +/- 1 ns
+pub fn gen_c17_units(out: &mut dyn Write) {
+    const NPC: i128 = 3_155_760_000_000_000_000;
+    const DAYN: i128 = 86_400_000_000_000;
+    let units: [(&str, i128); 9] = [("ns", 1), ("us", 1_000), ("ms", 1_000_000), ("s", 1_000_000_000), ("min", 60_000_000_000), ("h", 3_600_000_000_000), ("d", DAYN), ("wk", 7 * DAYN), ("cy", NPC)];
+    // (op, scale the epoch is held in, the view's origin as a count of that scale, century counts to visit)
+    let views: [(&str, &str, i128, [i128; 4]); 4] = [
+        ("to_unix_u", "UTC", 25_567 * DAYN, [-2, -1, 1, 2]),
+        ("to_mjd_tai_u", "TAI", -15_020 * DAYN, [-1, 1, 2, 3]),
+        ("to_mjd_utc_u", "UTC", -15_020 * DAYN, [-1, 1, 2, 3]),
+        ("to_jde_tai_u", "TAI", -15_020 * DAYN - 2_400_000 * DAYN - DAYN / 2, [64, 65, 67, 68]),
+    ];
+    for (op, ts, origin, cs) in views {
+        for c in cs {
+            for (un, uns) in units {
+                for k in [1i128, 3] {
+                    for dt in [-1i128, 0, 1] {
+                        writeln!(out, "wrap_a {} {}:{} {}", op, dstr(origin + c * NPC + k * uns + dt), ts, un).unwrap();
+                    }
+                }
+            }
+        }
+    }
+}
+
 pub fn gen_c17(r: &mut Rng, out: &mut dyn Write) {
     if r.chance(1, 2) {
         let name = *r.pick(&CTORS_VIEW);
@@ -206,6 +232,17 @@ pub fn exec(op: &str, a: &[&str]) -> Option<String> {
                     let c = e.to_time_scale(ts);
                     let r = crate::codec::str2hex(&c.to_gregorian_str(ts));
                     Some(format!("ok t {} {} {}", crate::codec::str2hex(&e.to_gregorian_str(ts)), r, crate::codec::str2hex(&format!("{}", c))))
+                }
+                // the unit-taking views in ANY unit against the days view scaled in binary64 (kind g: 8 units in the last place)
+                "to_unix_u" | "to_mjd_tai_u" | "to_mjd_utc_u" | "to_jde_tai_u" => {
+                    let u = s2u(a[2]);
+                    let (w, days) = match a[0] {
+                        "to_unix_u" => (e.to_unix(u), e.to_unix_days()),
+                        "to_mjd_tai_u" => (e.to_mjd_tai(u), e.to_mjd_tai_days()),
+                        "to_mjd_utc_u" => (e.to_mjd_utc(u), e.to_mjd_utc_days()),
+                        _ => (e.to_jde_tai(u), e.to_jde_tai_days()),
+                    };
+                    Some(format!("ok g {} {}", f2s(w), f2s(days * (86_400.0 / u.in_seconds()))))
                 }
                 "to_mjd_tai_d" => f(e.to_mjd_tai(Unit::Day), e.to_mjd_tai_days()),
                 "to_mjd_tai_s" => f(e.to_mjd_tai(Unit::Second), e.to_mjd_tai_seconds()),
